@@ -35,10 +35,11 @@ if applied:
     res["demo_patched_rc"] = rc2
     res["demo_patched_tail"] = out2
     sh("git -C %s checkout -- . && git -C %s clean -fdq -e _build" % (slot, slot))
-    sh("ninja -C %s/_build -k 0 -j 8" % slot, timeout=10800)
-    rc, out = demo()
+    rc, out = demo()          # the demonstration builds itself from the sources; only static helper libraries come from _build
     res["demo_unchanged_rc"] = rc
     sh("git -C %s clean -fdq -e _build" % slot)
+    # bring the prebuilt tests of the slot back to the unchanged tree in the background (for the next sub-agent)
+    subprocess.Popen("rm -f %s/.ready; (ninja -C %s/_build -k 0 -j 6 > /dev/null 2>&1; touch %s/.ready) &" % (slot, slot, slot), shell=True)
 else:
     sh("git -C %s checkout -- . && git -C %s clean -fdq -e _build" % (slot, slot))
     rc, out = demo()
